@@ -2,6 +2,7 @@ package main
 
 import (
 	"fmt"
+	"go/token"
 	"go/types"
 	"os"
 	"sort"
@@ -59,6 +60,186 @@ func hasMutableRef(t types.Type, seen map[types.Type]bool, path string) string {
 		return hasMutableRef(u.Elem(), seen, path+"[]")
 	}
 	return ""
+}
+
+// doneSignal: the other way of ending the consumer goroutine. The listen function signals "done" on every
+// return - a deferred cancel() of a context it created, or a deferred close of a signal channel it made - and
+// the consumer, which captured that context / channel, receives from it (ctx.Done(), the channel) in a select.
+// Returns the instruction in the consumer that receives the signal.
+func doneSignal(blocks []*ssa.BasicBlock, consumer *goTarget) ssa.Instruction {
+	in, _ := doneSignalChan(blocks, consumer)
+	return in
+}
+
+// doneSignalChan: as doneSignal, with the channel expression (in the consumer) the signal is received from.
+func doneSignalChan(blocks []*ssa.BasicBlock, consumer *goTarget) (ssa.Instruction, ssa.Value) {
+	if consumer == nil {
+		return nil, nil
+	}
+	// what the consumer receives from, as values of the parent
+	outerOf := func(v ssa.Value) ssa.Value {
+		if ld, ok := v.(*ssa.UnOp); ok && ld.Op == token.MUL {
+			v = ld.X
+		}
+		for i, in := range consumer.Inner {
+			if in == v {
+				return consumer.Outer[i]
+			}
+		}
+		return nil
+	}
+	resolve := func(v ssa.Value) ssa.Value {
+		// a captured variable: the single value stored into it
+		if al, ok := v.(*ssa.Alloc); ok && al.Referrers() != nil {
+			var st *ssa.Store
+			for _, ref := range *al.Referrers() {
+				if s2, ok := ref.(*ssa.Store); ok && s2.Addr == ssa.Value(al) {
+					if st != nil {
+						return nil
+					}
+					st = s2
+				}
+			}
+			if st != nil {
+				return st.Val
+			}
+			return nil
+		}
+		return v
+	}
+	type recvSite struct {
+		in  ssa.Instruction
+		src ssa.Value // parent value: the context or the channel
+		ctx bool
+		ch  ssa.Value // the channel expression in the consumer
+	}
+	var sites []recvSite
+	addChan := func(in ssa.Instruction, ch ssa.Value) {
+		if call, ok := ch.(*ssa.Call); ok && call.Call.IsInvoke() && call.Call.Method.Name() == "Done" {
+			if o := outerOf(call.Call.Value); o != nil {
+				if v := resolve(o); v != nil {
+					sites = append(sites, recvSite{in, v, true, ch})
+				}
+			}
+			return
+		}
+		if o := outerOf(ch); o != nil {
+			if v := resolve(o); v != nil {
+				sites = append(sites, recvSite{in, v, false, ch})
+			}
+		}
+	}
+	for _, b := range consumer.Fn.Blocks {
+		for _, in := range b.Instrs {
+			switch x := in.(type) {
+			case *ssa.Select:
+				for _, st := range x.States {
+					if st.Dir == types.RecvOnly {
+						addChan(x, st.Chan)
+					}
+				}
+			case *ssa.UnOp:
+				if x.Op == token.ARROW {
+					addChan(x, x.X)
+				}
+			}
+		}
+	}
+	// what the listen function signals on every return
+	for _, b := range blocks {
+		for _, in := range b.Instrs {
+			df, ok := in.(*ssa.Defer)
+			if !ok {
+				continue
+			}
+			if bi, ok := df.Call.Value.(*ssa.Builtin); ok && bi.Name() == "close" && len(df.Call.Args) == 1 {
+				ch := resolve(df.Call.Args[0])
+				if ld, ok := df.Call.Args[0].(*ssa.UnOp); ok && ld.Op == token.MUL {
+					ch = resolve(ld.X)
+				}
+				for _, s := range sites {
+					if !s.ctx && ch != nil && s.src == ch {
+						if _, isMake := ch.(*ssa.MakeChan); isMake && !sentTo(blocks, consumer, ch) {
+							return s.in, s.ch
+						}
+					}
+				}
+				continue
+			}
+			// defer cancel()
+			cv := df.Call.Value
+			if ld, ok := cv.(*ssa.UnOp); ok && ld.Op == token.MUL {
+				cv = resolve(ld.X)
+			}
+			ex, ok := cv.(*ssa.Extract)
+			if !ok || ex.Index != 1 {
+				continue
+			}
+			call, ok := ex.Tuple.(*ssa.Call)
+			if !ok || call.Call.StaticCallee() == nil {
+				continue
+			}
+			switch calleeName(call.Call.StaticCallee()) {
+			case "context.WithCancel", "context.WithTimeout", "context.WithDeadline":
+			default:
+				continue
+			}
+			for _, s := range sites {
+				if cx, ok := s.src.(*ssa.Extract); ok && s.ctx && cx.Index == 0 && cx.Tuple == ex.Tuple {
+					return s.in, s.ch
+				}
+			}
+		}
+	}
+	return nil, nil
+}
+
+// sentTo: something is sent on the channel made by mk, in the parent's blocks or in the goroutine (a channel
+// that carries values is not a pure "closed means done" signal).
+func sentTo(blocks []*ssa.BasicBlock, consumer *goTarget, mk ssa.Value) bool {
+	isCh := func(v ssa.Value, inner bool) bool {
+		if ld, ok := v.(*ssa.UnOp); ok && ld.Op == token.MUL {
+			v = ld.X
+		}
+		if inner {
+			for i, in := range consumer.Inner {
+				if in == v {
+					v = consumer.Outer[i]
+				}
+			}
+		}
+		if v == mk {
+			return true
+		}
+		if al, ok := v.(*ssa.Alloc); ok && al.Referrers() != nil {
+			for _, ref := range *al.Referrers() {
+				if st, ok := ref.(*ssa.Store); ok && st.Addr == ssa.Value(al) && st.Val == mk {
+					return true
+				}
+			}
+		}
+		return false
+	}
+	scan := func(bs []*ssa.BasicBlock, inner bool) bool {
+		for _, b := range bs {
+			for _, in := range b.Instrs {
+				switch x := in.(type) {
+				case *ssa.Send:
+					if isCh(x.Chan, inner) {
+						return true
+					}
+				case *ssa.Select:
+					for _, st := range x.States {
+						if st.Dir == types.SendOnly && isCh(st.Chan, inner) {
+							return true
+						}
+					}
+				}
+			}
+		}
+		return false
+	}
+	return scan(blocks, false) || scan(consumer.Fn.Blocks, true)
 }
 
 func RuleListen(r *Report, p *Program) {
@@ -408,9 +589,10 @@ func RuleListen(r *Report, p *Program) {
 			d = fmt.Sprintf("%d pipes: delivery order needs exactly one pipe between the receive loop and the consumer", nChan)
 		case nGo != 1 || consumer == nil:
 			d = fmt.Sprintf("%d consumer goroutines", nGo)
-		case !deferClose:
+		case !deferClose && doneSignal(chainBlocks, consumer) == nil:
 			d = "the pipe is not closed when listening ends, so the consumer goroutine never ends"
 		}
+		pipeClosed := deferClose
 		_ = unbuffered
 		r.Check(d == "", "LS3", "Listen:pipe", p.Pos(lfn.Pos()), "one pipe, one consumer, closed on return", d)
 		if consumer != nil {
@@ -442,8 +624,9 @@ func RuleListen(r *Report, p *Program) {
 				cell := w.newCell("event", pt.Elem(), true)
 				cell.Val = a.replyTerm(namedUnderlyingLayout(a, pt.Elem()), "reply")
 				cell.Val.Typ = pt.Elem()
-				// nil element = closed pipe: decided by an atom
-				if !w.boolAtom(fmt.Sprintf("pipe-open#%d", id), nil) {
+				// nil element = closed pipe: decided by an atom (a pipe that is never closed never yields nil: the
+				// consumer is then ended by the done signal, a case of its select)
+				if pipeClosed && !w.boolAtom(fmt.Sprintf("pipe-open#%d", id), nil) {
 					return mkNil(t), true
 				}
 				return &Term{Op: "ptr", Cell: cell, Typ: t}, true
@@ -930,6 +1113,25 @@ func stripPtr(t *Term) *Term {
 }
 
 // RuleListenSibling runs only the GetStatus ~ listener agreement (A6s).
+// RuleListenOnly: the listener rules named in ids, for properties that need only some of them.
+func RuleListenOnly(r *Report, p *Program, ids map[string]bool) {
+	tmp := NewReport(r.Property, r.Tier)
+	RuleListen(tmp, p)
+	for id, doc := range tmp.ruleDoc {
+		if ids[id] {
+			r.Rule(id, doc, tmp.minCount[id])
+		}
+	}
+	for _, o := range tmp.Obs {
+		if ids[o.Rule] {
+			r.add(o)
+		}
+	}
+	for _, f := range tmp.fatal {
+		r.Fatal("LS5", "listener", f)
+	}
+}
+
 func RuleListenSibling(r *Report, p *Program) {
 	tmp := NewReport(r.Property, r.Tier)
 	RuleListen(tmp, p)
